@@ -55,6 +55,12 @@ def replay(ctx, graph, label, cfg, extra, timeout=3600):
                                  (" -- " + m["detail"]) if m.get("detail") else "", " ; ".join(m["history"][-12:])))
         ctx.violation(what, ctx.save_replay("walk-" + label, {"mismatch": m, "cfg": cfg, "label": label, "extra": extra}),
                       key="replay-%s-%s" % (m["kind"], m["action"].split(" ")[0]))
+    if R.get("interference"):
+        ctx.notes.setdefault("interference", []).extend(R["interference"][:5])
+        log("replay %s: %d walk(s) re-run because a foreign client touched their daemon: %s"
+            % (label, len(R["interference"]), R["interference"][0]))
+    if R.get("interference_skipped", 0) > 3:
+        raise Inconclusive("c14-replay %s: %d walks kept being disturbed by foreign clients" % (label, R["interference_skipped"]))
     if R.get("driver_errors"):
         raise Inconclusive("c14-replay %s: driver errors: %s" % (label, R["driver_errors"][:3]))
     if R["timing_skipped"] > max(5, R["walks"] // 10):
@@ -85,6 +91,11 @@ def validate(ctx, trace, ntraces, what):
     shutil.copy(trace, dst)
     with open(dst + ".tlc.txt", "w") as f:
         f.write(r.out[-30000:])
+    # diagnosis pass: would the log be explained if an UNREGISTER were allowed to drop an occupied ephemeral key?
+    d = ctx.tlc("LookupdTrace", "LookupdTrace_diag.cfg", workers=1, timeout=3000, jvm=["-Xss512m"],
+                files={trace: "trace.ndjson"}, label="trace-diagnosis:" + what)
+    if d.violated == "NoLostRegistration":
+        r = d
     if r.violated == "NoLostRegistration":
         m = re.search(r"/\\ lost = (\{<<.*?>>\})", r.out, re.S)
         ctx.violation("recorded execution (%s): an UNREGISTER of an ephemeral topic/channel removed the key although another connection's "
@@ -174,6 +185,8 @@ def run(ctx):
     C = json.load(open(rep))
     if C.get("errors"):
         raise Inconclusive("c14-conc: driver errors: %s" % C["errors"][:3])
+    if C.get("interfered_runs"):
+        ctx.notes["concurrent_runs_dropped_foreign_client"] = C["interfered_runs"][:5]
     if C["hooks_missing"]:
         ctx.notes["binding_B"] = ("skipped: the registry hooks (proposed_hooks/lookupd.diff) are not in this tree - no DB events were "
                                   "recorded, so there is no linearization to validate")
@@ -213,6 +226,9 @@ def run(ctx):
                        "distinct_nontrivial = distinct state-changing transitions (pre-state, action, arguments) of the TLC graphs "
                        "that were executed and compared (self-loops are executed too but not counted) + gated schedules")
     ctx.assumptions += [
+        "an observation that names topics / channels / producers the harness never used (another check on this machine talking to "
+        "a port one of this check's short-lived daemons now owns) is not an observation of nsqlookupd: that walk is re-run on a "
+        "fresh daemon (concurrent run: dropped) and counted in notes.interference",
         "a disconnect is observed as complete when the daemon closes its side of the socket (after IOLoop's cleanup); three ways of "
         "ending a connection are used: half-close, unknown command (fatal E_INVALID), second IDENTIFY / REGISTER before IDENTIFY",
         "timed regime: real thresholds are (k + 1/2) ticks, every step and its queries must fall inside [0.3, 0.7] of a tick "
